@@ -91,7 +91,7 @@ func c13Gen(t *rapid.T) c13Case {
 		d := rapid.SampledFrom(existingDirs()).Draw(t, "linkdir")
 		name := filepath.Join(d, rapid.SampledFrom([]string{"l1", "l2", "lnk", "l.skip", "zl"}).Draw(t, "linkname"))
 		var target string
-		switch rapid.IntRange(0, 9).Draw(t, "linkkind") {
+		switch rapid.IntRange(0, 10).Draw(t, "linkkind") {
 		case 0, 1, 2: // file symlink, relative or absolute
 			fs := files()
 			if len(fs) == 0 {
@@ -129,6 +129,8 @@ func c13Gen(t *rapid.T) c13Case {
 				continue
 			}
 			target = rel(name, rapid.SampledFrom(ls).Draw(t, "chain"))
+		case 9: // a regular file that cannot be read (every read of it fails with EIO, also for root)
+			target = "/proc/self/mem"
 		default: // outside the tree: a sibling area that also exists
 			target = "@ROOT@/../outside/o.txt"
 		}
@@ -259,6 +261,9 @@ func c13Run(c c13Case, r *hx.Rec) error {
 	for _, n := range c.Nodes {
 		if n.Kind == "symlink" {
 			hasLink = true
+			if n.Target == "/proc/self/mem" {
+				r.Label("unreadable-file")
+			}
 		}
 		if strings.Contains(n.Content, "\r") {
 			hasCR = true
@@ -453,7 +458,7 @@ func c13Run(c c13Case, r *hx.Rec) error {
 
 func TestC13(t *testing.T) {
 	begin(t, "C13")
-	hx.Assume("the sandbox runs as root: permission-based unreadable paths cannot be produced (missing paths and dangling links stand in)")
+	hx.Assume("the sandbox runs as root: permission-based unreadable paths cannot be produced (missing paths, dangling links and a symlink to /proc/self/mem, whose reads fail with EIO, stand in)")
 	hx.Assume("exclude patterns are '*.ext' and exact base names of files/symlinks; symlinks whose target alone is excluded are not generated (the statement does not settle them)")
 	hx.Check[c13Case]{
 		Property: "C13", Part: "trees",
